@@ -91,16 +91,35 @@ impl Authority {
 
     /// Wait until the truth log holds `continuity_run_ended` for this run session.
     pub async fn wait_run_ended(&self, session: &str, timeout: Duration) -> bool {
+        use std::io::{Read, Seek, SeekFrom};
         let needle = format!("\"run_session_id\":\"{session}\"");
         let t0 = Instant::now();
+        // incremental scan: only bytes appended since the last look are read (whole lines)
+        let mut offset: u64 = 0;
+        let mut carry: Vec<u8> = Vec::new();
         loop {
-            let bytes = self.sandbox.log_bytes();
-            let text = String::from_utf8_lossy(&bytes);
-            if text
-                .lines()
-                .any(|l| l.contains("\"type\":\"continuity_run_ended\"") && l.contains(&needle))
-            {
-                return true;
+            if let Ok(mut f) = std::fs::File::open(self.sandbox.log_path()) {
+                let len = f.metadata().map(|m| m.len()).unwrap_or(0);
+                if len < offset {
+                    offset = 0;
+                    carry.clear();
+                }
+                if len > offset && f.seek(SeekFrom::Start(offset)).is_ok() {
+                    let mut buf = Vec::with_capacity((len - offset) as usize);
+                    if f.take(len - offset).read_to_end(&mut buf).is_ok() {
+                        offset += buf.len() as u64;
+                        carry.extend_from_slice(&buf);
+                        let upto = carry.iter().rposition(|b| *b == b'\n').map(|p| p + 1).unwrap_or(0);
+                        let found = {
+                            let text = String::from_utf8_lossy(&carry[..upto]);
+                            text.lines().any(|l| l.contains("\"type\":\"continuity_run_ended\"") && l.contains(&needle))
+                        };
+                        if found {
+                            return true;
+                        }
+                        carry.drain(..upto);
+                    }
+                }
             }
             if t0.elapsed() > timeout {
                 return false;
